@@ -23,6 +23,7 @@ type Spec struct {
 	Types   []string            // local source type names (non-interface)
 	Unions  map[string][]string // interface expr -> member type exprs (as seen from the case package)
 	Rand    map[string]string   // type name -> generated function name
+	Enums   map[string][]string // enum type expr -> constant exprs
 	Imports map[string]string   // import name -> path, for the qualified names above
 }
 
@@ -44,7 +45,7 @@ func driverSource(s Spec) string {
 	fmt.Fprintf(&b, "package %s\n\nimport (\n\t\"reflect\"\n\n\t\"acme.org/synth/zz_rt\"\n", s.PkgName)
 	var used []string
 	body := &strings.Builder{}
-	fmt.Fprintf(body, "func init() {\n\tc := &zz_rt.Case{Types: map[string]reflect.Type{}, Unions: map[reflect.Type][]reflect.Type{}, Rand: map[string]func() any{}}\n")
+	fmt.Fprintf(body, "func init() {\n\tc := &zz_rt.Case{Types: map[string]reflect.Type{}, Unions: map[reflect.Type][]reflect.Type{}, Rand: map[string]func() any{}, Enums: map[reflect.Type][]reflect.Value{}}\n")
 	for _, t := range s.Types {
 		fmt.Fprintf(body, "\tc.Types[%q] = reflect.TypeOf((*%s)(nil)).Elem()\n", t, t)
 	}
@@ -59,6 +60,18 @@ func driverSource(s Spec) string {
 			ms = append(ms, fmt.Sprintf("reflect.TypeOf((*%s)(nil)).Elem()", m))
 		}
 		fmt.Fprintf(body, "\tc.Unions[reflect.TypeOf((*%s)(nil)).Elem()] = []reflect.Type{%s}\n", u, strings.Join(ms, ", "))
+	}
+	var es []string
+	for e := range s.Enums {
+		es = append(es, e)
+	}
+	sort.Strings(es)
+	for _, e := range es {
+		var cs []string
+		for _, c := range s.Enums[e] {
+			cs = append(cs, fmt.Sprintf("reflect.ValueOf(%s)", c))
+		}
+		fmt.Fprintf(body, "\tc.Enums[reflect.TypeOf((*%s)(nil)).Elem()] = []reflect.Value{%s}\n", e, strings.Join(cs, ", "))
 	}
 	var rs []string
 	for t := range s.Rand {
